@@ -112,6 +112,7 @@ func Load(repo, goos, goarch string) (*Program, error) {
 	sort.Slice(p.modFns, func(i, j int) bool { return p.FnKey(p.modFns[i]) < p.FnKey(p.modFns[j]) })
 	p.computeRoots()
 	p.detectRenames()
+	theProgram = p
 	inlinable = func(fn *ssa.Function) bool {
 		if fn.Parent() != nil || fn.Synthetic != "" || !p.InModule(fn) {
 			return false
@@ -217,13 +218,43 @@ func (p *Program) detectRenames() {
 	p.alias = map[*ssa.Function]string{}
 	current := map[string]bool{}
 	var added []*ssa.Function
+	byKey := map[string]*ssa.Function{}
 	for _, fn := range p.modFns {
+		if fn.Synthetic != "" {
+			continue // compiler-made wrappers do not count as the function being there
+		}
 		k := rawKey(fn)
 		current[k] = true
-		if _, known := knownFuncs[k]; !known && fn.Parent() == nil && fn.Synthetic == "" {
+		byKey[k] = fn
+		if _, known := knownFuncs[k]; !known && fn.Parent() == nil {
 			added = append(added, fn)
 		}
 	}
+	// a method whose receiver changed between pointer and value is the same method
+	for k := range knownFuncs {
+		if current[k] || strings.Contains(k, "$") || !strings.HasPrefix(k, "(") {
+			continue
+		}
+		other := ""
+		if strings.HasPrefix(k, "(*") {
+			other = "(" + k[2:]
+		} else {
+			other = "(*" + k[1:]
+		}
+		if fn, ok := byKey[other]; ok {
+			if _, wasKnown := knownFuncs[other]; !wasKnown {
+				p.alias[fn] = k
+				current[k] = true
+			}
+		}
+	}
+	var added2 []*ssa.Function
+	for _, fn := range added {
+		if _, aliased := p.alias[fn]; !aliased {
+			added2 = append(added2, fn)
+		}
+	}
+	added = added2
 	type slot struct{ scope, sig string }
 	gone := map[slot][]string{}
 	for k, sig := range knownFuncs {
